@@ -543,6 +543,17 @@ pub fn format2(map: &BTreeMap<u32, u16>, extra_leads: &BTreeSet<u8>, language: u
     if !leads.is_empty() {
         e.classes.insert("f2:two-byte");
     }
+    for (lead, m) in &leads {
+        // a lead byte looked up on its own must stay unmapped even when its own value is a
+        // valid (mapped) low byte of its sub-header
+        let sh = &shs[(keys[*lead as usize] / 8) as usize];
+        if sh.first <= *lead as u16 && (*lead as u16) < sh.first + sh.count {
+            e.classes.insert("f2:lead-byte-inside-own-low-byte-range");
+        }
+        if m.contains_key(lead) {
+            e.classes.insert("f2:lead-byte-inside-own-low-byte-range,mapped");
+        }
+    }
     if !singles.is_empty() {
         e.classes.insert("f2:single-byte");
     }
